@@ -1,6 +1,7 @@
 import Librfn.Gen.FibreSeq
 import Librfn.Model.Fibre
 import Std.Tactic.BVDecide
+import Librfn.Gen.Ackermann
 /-!
 # C02 — tie T for the comparator of the scheduler's timer queue (`duetime_cmp` of `fibre.c`)
 
@@ -26,10 +27,15 @@ def dueAt (mem : Mem) (n : BitVec 64) : BitVec 32 := Mem.load32 mem (n - 4#64)
 theorem duetime_cmp_generated (n1 n2 : BitVec 64) (mem : Mem) :
     (duetime_cmp n1 n2 mem).ub = false ∧ (duetime_cmp n1 n2 mem).exh = false ∧ (duetime_cmp n1 n2 mem).mem = mem ∧
     (duetime_cmp n1 n2 mem).ret = dueAt mem n1 - dueAt mem n2 := by
-  have h : ∃ a1 a2, (duetime_cmp n1 n2 mem).ret = Mem.load32 mem a1 - Mem.load32 mem a2 ∧ a1 = n1 - 4#64 ∧ a2 = n2 - 4#64 :=
-    ⟨_, _, rfl, by bv_decide (config := { timeout := 60 }), by bv_decide (config := { timeout := 60 })⟩
-  obtain ⟨_, _, e, rfl, rfl⟩ := h
-  exact ⟨rfl, rfl, rfl, e⟩
+  refine ⟨?_, ?_, ?_, ?_⟩
+  · first | rfl | (unfold duetime_cmp; bv_decide (config := { timeout := 60 }))
+  · first | rfl | (unfold duetime_cmp; bv_decide (config := { timeout := 60 }))
+  · first | rfl | (unfold duetime_cmp; simp only [])
+  · -- the two due times are opaque 32-bit loads; their addresses are compared through explicit congruence facts
+    unfold duetime_cmp dueAt
+    simp only []
+    ackermann (Mem.load32 mem)
+    bv_decide (config := { timeout := 60 })
 
 /-- **tie T, `duetime_cmp`**: the sign test `list_insert_sorted` applies is the model's `dueGe` -/
 theorem duetime_cmp_tie (due : Librfn.Sched.Fid → BitVec 32) (f x : Librfn.Sched.Fid) (n1 n2 : BitVec 64) (mem : Mem)
